@@ -629,3 +629,32 @@ func ControlConds(b *ssa.BasicBlock) []Cond {
 	visit(b, 0)
 	return out
 }
+
+// Resolve follows phis whose live incoming edges all carry one and the same value.
+func (f *Flow) Resolve(v ssa.Value) ssa.Value {
+	for depth := 0; depth < 8; depth++ {
+		p, ok := v.(*ssa.Phi)
+		if !ok {
+			return v
+		}
+		var only ssa.Value
+		n := 0
+		for i, e := range p.Edges {
+			if !f.liveInto(p.Block(), i) {
+				continue
+			}
+			if n == 0 || e != only {
+				if n > 0 && e != only {
+					return v
+				}
+				only = e
+			}
+			n++
+		}
+		if n == 0 || only == nil {
+			return v
+		}
+		v = only
+	}
+	return v
+}
